@@ -19,10 +19,8 @@ import (
 // node": the constant the predicate closure compares the step's type test
 // with (the other comparison is with n.NodeType()).
 func (w *World) allNodeConst() (int64, bool) {
-	for _, fn := range w.sharedClosures() {
-		if !w.isPredicateFuncType(fn.Signature) {
-			continue
-		}
+	for _, ntp := range w.nodeTestPredicates() {
+		fn := ntp.Fn
 		var k int64
 		found := false
 		eachInstr(fn, false, func(_ *ssa.Function, in ssa.Instruction) {
@@ -755,44 +753,105 @@ func (w *World) checkPrimaryAgreement(r *Report, g *Grammar) {
 			prim = fn
 		}
 	}
-	// announcer: func(*scanner) bool with >= 3 token tests, used as an If condition in a parser method
+	// announcer: the func(*scanner) bool the path-expression parser consults to
+	// choose between a primary expression and a location path
 	var ann *ssa.Function
-	for _, fn := range w.AllFuncs {
-		sig := fn.Signature
-		if fn.Parent() != nil || sig.Recv() != nil || sig.Params().Len() != 1 || sig.Results().Len() != 1 {
-			continue
-		}
-		if p, ok := sig.Params().At(0).Type().(*types.Pointer); !ok || !types.Identical(p.Elem(), g.ScannerT) {
-			continue
-		}
-		if len(g.tokensTested(fn)) >= 3 {
-			ann = fn
-		}
+	entry, expr := w.pathEntry(g)
+	if entry != nil {
+		eachInstr(entry, false, func(_ *ssa.Function, in ssa.Instruction) {
+			c, ok := in.(*ssa.Call)
+			if !ok || c.Call.StaticCallee() == nil {
+				return
+			}
+			fn := c.Call.StaticCallee()
+			sig := fn.Signature
+			if fn.Parent() != nil || sig.Recv() != nil || sig.Params().Len() != 1 || sig.Results().Len() != 1 {
+				return
+			}
+			if p, ok := sig.Params().At(0).Type().(*types.Pointer); !ok || !types.Identical(p.Elem(), g.ScannerT) {
+				return
+			}
+			if bt, ok := sig.Results().At(0).Type().Underlying().(*types.Basic); ok && bt.Kind() == types.Bool {
+				ann = fn
+			}
+		})
 	}
-	if prim == nil || ann == nil {
+	step := w.stepParser(g)
+	t := w.stepTokens(g)
+	if prim == nil || ann == nil || step == nil || !t.ok {
 		r.bad("ANCHOR", "G-EXPECT:primary", "", "primary-expression parser or its announcing predicate not found")
 		return
 	}
 	r.FuncsAnalysed[fnName(prim)] = true
 	r.FuncsAnalysed[fnName(ann)] = true
-	a, b := g.tokensTested(ann), g.tokensTested(prim)
-	var da, db []string
-	for k := range a {
-		if !b[k] {
-			da = append(da, g.tokName(k))
+	// every token the announcer can say yes to is one the primary parser turns
+	// into a node or rejects with a panic: it never hands back a nil operand
+	sf := w.scannerFieldIdx(g)
+	var toks []int64
+	for k := range g.TokNames {
+		toks = append(toks, k)
+	}
+	sort.Slice(toks, func(i, j int) bool { return toks[i] < toks[j] })
+	var specs []tokSpec
+	for _, k := range toks {
+		if k == t.name {
+			specs = append(specs, tokSpec{Tok: k, Name: "f", CanBeFunc: true}, tokSpec{Tok: k, Name: "f"}, tokSpec{Tok: k, Name: "text", CanBeFunc: true})
+		} else {
+			specs = append(specs, tokSpec{Tok: k, Keep: true})
 		}
 	}
-	for k := range b {
-		if !a[k] {
-			db = append(db, g.tokName(k))
+	var escapes []string
+	announced, judged := 0, 0
+	undecided := ""
+	for _, sp := range specs {
+		st := w.initState()
+		sc := st.externObj(g.ScannerT, nil)
+		w.setToken(st, sc, sf, sp)
+		if sp.Keep {
+			sc.Fields[sf.name] = aStr("")
+		}
+		ai := w.newInterp(AHooks{})
+		yes := false
+		for _, o := range ai.Exec(ann, []AVal{{Kind: avPtr, Obj: sc, Field: -1}}, nil, st) {
+			if o.Cut || o.Panicked {
+				continue
+			}
+			if b, ok := o.Ret.Bool(); !ok || b {
+				yes = true
+			}
+		}
+		if !yes {
+			continue
+		}
+		announced++
+		// a finite continuation: an argument-less call, a parenthesised operand, the end
+		stream := []tokSpec{sp}
+		eofT, _ := g.eofTok()
+		switch {
+		case sp.Tok == t.name:
+			stream = append(stream, tokSpec{Tok: t.lp, Keep: true}, tokSpec{Tok: t.rp, Keep: true})
+		case sp.Tok == t.lp:
+			stream = append(stream, tokSpec{Tok: t.name, Name: "x"}, tokSpec{Tok: t.rp, Keep: true})
+		}
+		stream = append(stream, tokSpec{Tok: eofT, Keep: true})
+		for _, o := range w.runPath(g, prim, step, expr, stream) {
+			if o.Cut {
+				undecided = "a path of the primary-expression parser could not be followed for " + g.tokName(sp.Tok)
+				continue
+			}
+			judged++
+			if !o.Panicked && o.Ret.Kind == avNil {
+				escapes = append(escapes, g.tokName(sp.Tok))
+			}
 		}
 	}
-	sort.Strings(da)
-	sort.Strings(db)
-	if len(da)+len(db) == 0 {
-		r.ok("G-EXPECT", "primary-agreement", w.pos(prim.Pos()), fmt.Sprintf("%s and %s agree on %d tokens", ann.Name(), prim.Name(), len(a)))
-	} else {
-		r.bad("G-EXPECT", "primary-agreement", w.pos(prim.Pos()), fmt.Sprintf("%s announces %v that %s does not handle / %s handles %v that are never announced: a nil operand escapes the parser", ann.Name(), da, prim.Name(), prim.Name(), db))
+	switch {
+	case len(escapes) > 0:
+		r.bad("G-EXPECT", "primary-agreement", w.pos(prim.Pos()), fmt.Sprintf("%s announces %v as the start of a primary expression, but %s neither builds a node for it nor panics: a nil operand escapes the parser", ann.Name(), dedup(escapes), prim.Name()))
+	case undecided != "" || judged == 0:
+		r.undec("G-EXPECT", "primary-agreement", w.pos(prim.Pos()), "the primary-expression parser could not be followed ("+undecided+")")
+	default:
+		r.ok("G-EXPECT", "primary-agreement", w.pos(prim.Pos()), fmt.Sprintf("%s builds a node or panics for each of the %d token forms %s announces", prim.Name(), announced, ann.Name()))
 	}
 	// the name case of both applies the same refinement (can be function, not a node type)
 	ca, cb := calleesOf(ann), calleesOf(prim)
